@@ -790,9 +790,28 @@ func c19ModelEq(a, b reflect.Value, path, field string, out *[]c19ModelDiff, max
 		c19ModelEq(a.Elem(), b.Elem(), path, field, out, max)
 	case reflect.Struct:
 		t := a.Type()
+		// dynamic mode: the elements live in a directory, one file each, so their order is the order of file names
+		// and carries no information; compare the two lists as multisets (sorted by their JSON text)
+		dynList := ""
+		if t.PkgPath() == "mosn.io/mosn/pkg/config/v2" {
+			switch t.Name() {
+			case "RouterConfiguration":
+				if a.FieldByName("RouterConfigPath").String() != "" {
+					dynList = "VirtualHosts"
+				}
+			case "ClusterManagerConfig":
+				if a.FieldByName("ClusterConfigPath").String() != "" {
+					dynList = "Clusters"
+				}
+			}
+		}
 		for i := 0; i < t.NumField(); i++ {
 			sf := t.Field(i)
 			if !sf.IsExported() {
+				continue
+			}
+			if dynList != "" && sf.Name == dynList {
+				c19ModelEq(c19SortedByJSON(a.Field(i)), c19SortedByJSON(b.Field(i)), path+"."+sf.Name, t.Name()+"."+sf.Name, out, max)
 				continue
 			}
 			name := sf.Name
@@ -897,6 +916,28 @@ func c19ModelEq(a, b reflect.Value, path, field string, out *[]c19ModelDiff, max
 			add("changed")
 		}
 	}
+}
+
+// c19SortedByJSON returns a copy of a slice value ordered by the JSON text of its elements.
+func c19SortedByJSON(v reflect.Value) reflect.Value {
+	if v.Kind() != reflect.Slice || v.Len() < 2 {
+		return v
+	}
+	type el struct {
+		key string
+		v   reflect.Value
+	}
+	els := make([]el, v.Len())
+	for i := range els {
+		b, _ := json.Marshal(v.Index(i).Interface())
+		els[i] = el{string(b), v.Index(i)}
+	}
+	sort.SliceStable(els, func(i, j int) bool { return els[i].key < els[j].key })
+	out := reflect.MakeSlice(v.Type(), 0, v.Len())
+	for _, e := range els {
+		out = reflect.Append(out, e.v)
+	}
+	return out
 }
 
 func c19Show(v reflect.Value) string {
